@@ -15,6 +15,20 @@ def run_inprocess(argv, stdin_text=''):
     lg = logging.getLogger('penman')
     level = lg.level
     code = None
+    verbose = any(a in ('-v', '-vv', '-vvv', '--verbose') for a in argv)
+    disabled = logging.root.manager.disable
+    sink = None
+    if verbose:
+        # let the records through (the harness switches logging off globally): they are formatted and dropped
+        class _Sink(logging.Handler):
+            def emit(self, record):
+                try:
+                    record.getMessage()
+                except Exception:
+                    pass
+        sink = _Sink()
+        logging.root.addHandler(sink)
+        logging.disable(logging.NOTSET)
     try:
         sys.argv = ['penman'] + list(argv)
         sys.stdin = io.StringIO(stdin_text)
@@ -26,8 +40,13 @@ def run_inprocess(argv, stdin_text=''):
     finally:
         sys.argv, sys.stdin, sys.stdout, sys.stderr = old
         lg.setLevel(level)
+        if sink is not None:
+            logging.root.removeHandler(sink)
+            logging.disable(disabled)
     if code is None:
         code = 0
+    if isinstance(code, int) and not isinstance(code, bool):
+        code &= 0xFF          # what the operating system keeps of sys.exit(n)
     return code, out.getvalue(), err.getvalue()
 
 
